@@ -405,13 +405,18 @@ Variable hchain : list nat.
 Variable aorder : list Z.
 Variable provs : list provt.
 
-(* a provider every scripted block of which is a block of the honest chain (the block itself, not
-   only its header hash: a block with the honest header and another validator set or commit is
-   outside the provider contract) *)
+(* a provider every scripted block of which is THE block of the honest chain for the requested
+   height (any honest block for "latest"; the block itself, not only its header hash: a block with
+   the honest header and another validator set or commit, or of another height, is outside the
+   provider contract) *)
 Definition honest_provider (p : Z) : bool :=
   existsb (fun '(q, _, sc) =>
-    (q =? p) && forallb (fun '(_, rs) => forallb (fun r => match r with
-                                                          | RB i => existsb (Nat.eqb i) hchain
+    (q =? p) && forallb (fun '(h, rs) => forallb (fun r => match r with
+                                                          | RB i => if h =? 0 then existsb (Nat.eqb i) hchain
+                                                                    else match nth_error hchain (Z.to_nat (h - 1)) with
+                                                                         | Some j => (0 <? h) && Nat.eqb i j
+                                                                         | None => false
+                                                                         end
                                                           | RE _ => true
                                                           end) rs) sc) provs.
 
@@ -466,7 +471,9 @@ Definition static_chain (p : Z) : option (list lblk) :=
 Fixpoint adjacent_ok (now : Z) (l : list lblk) : bool :=
   match l with
   | a :: ((u :: _) as r) =>
-    (lb_height isig u =? lb_height isig a + 1) && step_okb P tbl now a u && all_slots_good u
+    (lb_height isig u =? lb_height isig a + 1)
+    && (h_vals_hash (lb_hdr isig u) =? h_next_vals_hash (lb_hdr isig a))
+    && step_okb P tbl now a u && all_slots_good u
     && adjacent_ok now r
   | _ => true
   end.
